@@ -385,6 +385,7 @@ func faultsimMain(c *Ctx) {
 		}
 		if c.Mode == "merge" {
 			mc := mergeGen(r, c.Thorough())
+			c.Begin(seed, mc)
 			vs, evals := mergeCheck(c, mc, r)
 			c.Res.Evaluations += evals
 			total := 0
@@ -401,6 +402,7 @@ func faultsimMain(c *Ctx) {
 			continue
 		}
 		dc := sysGen(r, c.Thorough())
+		c.Begin(seed, sysCase{DB: dc, N: -1})
 		ctl := runSysCase(c, sysCase{DB: dc, N: -1}, simrt.NewTape(seed))
 		c.Res.Evaluations++
 		c.Count("eligible-background-syscalls", ctl.eligible)
@@ -425,6 +427,7 @@ func faultsimMain(c *Ctx) {
 			if r.Intn(4) == 0 {
 				sc.Short = 1 + r.Intn(30)
 			}
+			c.Begin(seed, sc)
 			out := runSysCase(c, sc, simrt.NewTape(seed))
 			c.Res.Evaluations++
 			c.RunHash(nil, seed, n, out.fired, out.stopped, out.kind, len(out.vs))
